@@ -220,6 +220,8 @@ enum Act {
     SubShareA,
     /// one SUBSCRIBE naming a path both plainly and through a shared group (two legal, distinct subscriptions on one log)
     SubPlainAndSharedA,
+    /// SUBSCRIBEs the router refuses: a `$`-filter, subscription identifier 0
+    SubRefusedA(u8),
     PubB(u8),
     PubBUnicode,
     AckA(u16),
@@ -240,8 +242,8 @@ enum Act {
     ConnectThenDropUnserved,
 }
 
-const ACTS: [Act; 28] = [
-    Act::SubPlainAndSharedA,
+const ACTS: [Act; 30] = [
+    Act::SubPlainAndSharedA, Act::SubRefusedA(0), Act::SubRefusedA(1),
     Act::SubAThenDropUnserved, Act::PubBThenDropUnserved, Act::ConnectThenDropUnserved,
     Act::ConnA(true), Act::ConnA(false), Act::ConnB, Act::SubA, Act::SubShareA, Act::PubB(0), Act::PubB(1), Act::PubB(2),
     Act::PubBUnicode, Act::AckA(1), Act::AckA(7), Act::RecA(1), Act::RelB(1), Act::CompA(1), Act::UnsubA, Act::PingA,
@@ -254,6 +256,12 @@ fn apply(r: &mut Router, a: &mut Option<Client>, b: &mut Option<Client>, act: Ac
         Act::ConnB => *b = connect(r, "b", true).or(b.take()),
         Act::SubA => { if let Some(c) = a { send(r, c, vec![subscribe(1, &[("t/#", 1)])]); } }
         Act::SubShareA => { if let Some(c) = a { send(r, c, vec![subscribe(2, &[("$share/g/t/+", 1)])]); } }
+        Act::SubRefusedA(k) => {
+            if let Some(c) = a {
+                let pkt = if k == 0 { subscribe(6, &[("$SYS/#", 0)]) } else { Packet::Subscribe(Subscribe { pkid: 7, filters: vec![filter("t/y", 0)] }, Some(crate::protocol::SubscribeProperties { id: Some(0), user_properties: vec![] })) };
+                send(r, c, vec![pkt]);
+            }
+        }
         Act::SubPlainAndSharedA => { if let Some(c) = a { send(r, c, vec![subscribe(5, &[("t/x", 1), ("$share/g/t/x", 1)])]); } }
         Act::PubB(q) => { if let Some(c) = b { send(r, c, vec![publish("t/x", q, if q == 0 { 0 } else { 1 }, "m", false)]); } }
         Act::PubBUnicode => { if let Some(c) = b { send(r, c, vec![publish("\u{e9}t/\u{1F600}", 0, 0, "m", false)]); } }
@@ -1352,8 +1360,9 @@ fn router_survives_selected_long_histories() {
 #[test]
 fn late_subscription_covers_every_already_known_topic() {
     let name = "rumqttd::Router#late_subscription_sees_all_matching_topics";
-    let topics = ["a/b", "a/c", "b", "a/b/c", "c/b", "$x/b"];
-    let filters = ["a/b", "a/+", "#", "a/#", "+/b", "+/+", "b", "+"];
+    // ("a" and "b/#": a trailing `#` also matches the parent level)
+    let topics = ["a/b", "a/c", "b", "a/b/c", "c/b", "$x/b", "a"];
+    let filters = ["a/b", "a/+", "#", "a/#", "+/b", "+/+", "b", "+", "b/#"];
     let mut cases = 0u64;
     let mut fail: Option<String> = None;
     'outer: for warm in 0..(1usize << topics.len()) {
@@ -1901,6 +1910,100 @@ fn expired_messages_do_not_block_what_follows() {
     report(name, "C17,C01", "3 strategies x shared / plain subscription x QoS 0/1 x an expired message before the 1st, 2nd or 3rd of three messages, then a fourth", cases, fail);
 }
 
+/// C17: a group member whose OTHER subscription has filled its inflight window.  While it cannot take anything the group
+/// may wait for it (the documented parked-member behaviour), but once it has acknowledged, every message reaches a member
+// @native props=C17 tier=quick fn=Router::consume (InflightFull / BufferFull arms with skipped shared requests)+forward_device_data
+#[test]
+fn group_member_with_a_full_window_elsewhere_keeps_its_place_in_the_group() {
+    let name = "rumqttd::Router::consume#member_with_a_full_window_keeps_its_shared_request";
+    let mut cases = 0u64;
+    let mut fail: Option<String> = None;
+    'outer: for strategy in [Strategy::RoundRobin, Strategy::Sticky, Strategy::Random] {
+        for q in 0..2u8 {
+            for flood in [100usize, 130] {
+              for shared_first in [false, true] {
+                for one_burst in [false, true] {
+                cases += 1;
+                let desc = format!("strategy {:?}: m0 holds {} (x QoS 1, shared QoS {}), m1 holds $share/g/j; {} publishes on x that m0 reads but does not acknowledge{}; then m0 acknowledges everything", strategy, if shared_first { "$share/g/j then x" } else { "x then $share/g/j" }, q, flood, if one_burst { ", in ONE batch with the 8 publishes on j in front" } else { "; then 8 publishes on j" });
+                let mut r = Router::new(0, cfg(1024 * 1024, 10, strategy.clone()));
+                let p = connect(&mut r, "p", true).unwrap();
+                let m0 = connect(&mut r, "m0", true).unwrap();
+                let m1 = connect(&mut r, "m1", true).unwrap();
+                if shared_first {
+                    send(&mut r, &m0, vec![subscribe(1, &[("$share/g/j", q), ("x", 1)])]);
+                } else {
+                    send(&mut r, &m0, vec![subscribe(1, &[("x", 1), ("$share/g/j", q)])]);
+                }
+                send(&mut r, &m1, vec![subscribe(1, &[("$share/g/j", q)])]);
+                let _ = drain(&mut r, &m0);
+                let _ = drain(&mut r, &m1);
+                let pubs: Vec<Packet> = (0..flood).map(|i| publish("x", 0, 0, &format!("x{}", i), false)).collect();
+                if one_burst {
+                    let mut burst: Vec<Packet> = (0..8).map(|k| publish("j", 0, 0, &format!("{}", k), false)).collect();
+                    burst.extend(pubs);
+                    send(&mut r, &p, burst);
+                } else {
+                    for chunk in pubs.chunks(50) {
+                        send(&mut r, &p, chunk.to_vec());
+                    }
+                }
+                // m0 reads its window full, acknowledges nothing yet
+                let mut seen = vec![0usize; 8];
+                let mut pending: Vec<u16> = vec![];
+                for n in drain(&mut r, &m0).iter() {
+                    if let RNotification::Forward(Forward { publish, .. }) = n {
+                        if publish.qos as u8 == 1 {
+                            pending.push(publish.pkid);
+                        }
+                        if &publish.topic[..] == b"j" {
+                            seen[String::from_utf8_lossy(&publish.payload).parse::<usize>().unwrap()] += 1;
+                        }
+                    }
+                }
+                for k in 0..8 {
+                    if !one_burst {
+                        send(&mut r, &p, vec![publish("j", 0, 0, &format!("{}", k), false)]);
+                    }
+                    for g in receive_all(&mut r, &m1) {
+                        seen[g.1.parse::<usize>().unwrap()] += 1;
+                    }
+                }
+                // now m0 works through its backlog: reads and acknowledges until nothing comes any more
+                for _ in 0..30 {
+                    let acks: Vec<Packet> = pending.drain(..).map(puback).collect();
+                    if !acks.is_empty() {
+                        send(&mut r, &m0, acks);
+                    }
+                    let batch = drain(&mut r, &m0);
+                    for n in batch.iter() {
+                        if let RNotification::Forward(Forward { publish, .. }) = n {
+                            if publish.qos as u8 == 1 {
+                                pending.push(publish.pkid);
+                            }
+                            if &publish.topic[..] == b"j" {
+                                seen[String::from_utf8_lossy(&publish.payload).parse::<usize>().unwrap()] += 1;
+                            }
+                        }
+                    }
+                    for g in receive_all(&mut r, &m1) {
+                        seen[g.1.parse::<usize>().unwrap()] += 1;
+                    }
+                    if batch.is_empty() && pending.is_empty() {
+                        break;
+                    }
+                }
+                if seen.iter().any(|c| *c != 1) {
+                    fail = Some(format!("input=[{}] detail=[forwards per message of j: {:?} (each must reach exactly one member once everything is acknowledged and the broker is idle)]", desc, seen));
+                    break 'outer;
+                }
+                }
+              }
+            }
+        }
+    }
+    report(name, "C17", "3 strategies x QoS 0/1 on the shared filter x 100/130 unacknowledged publishes on the member's other subscription x order of the two filters x one burst / separate batches", cases, fail);
+}
+
 /// C17: membership changes never lose or duplicate messages — a member that repeated its group subscription and then
 /// leaves, and a member that joins while the group has an unforwarded backlog
 // @native props=C17 tier=quick fn=SharedGroup::{add_client,remove_client}+Router::{prepare_filter,handle_disconnection,forward_device_data}
@@ -2090,13 +2193,13 @@ fn will_is_published_once_unless_the_client_said_disconnect() {
         for retain in [false, true] {
             // how the connection ends: 0 link failure, 1 the client says DISCONNECT, 2 the router closes it after an unsolicited PUBACK,
             // 3 the router closes it after an unsolicited PUBCOMP (both are ends the client did not announce)
-            for ending in 0..4u8 {
+            for ending in 0..5u8 {
                 let said_disconnect = ending == 1;
                 for subscribers in 0..=2usize {
                     for signals in 1..=2usize {
                         for will_qos in 0..2u8 {
                             cases += 1;
-                            let desc = format!("will registered: {}, retained will: {}, connection ends by {}, {} matching subscriber(s), PublishWill signalled {} time(s), will QoS {}", has_will, retain, ["link failure", "client DISCONNECT", "router close after an unsolicited PUBACK", "router close after an unsolicited PUBCOMP"][ending as usize], subscribers, signals, will_qos);
+                            let desc = format!("will registered: {}, retained will: {}, connection ends by {}, {} matching subscriber(s), PublishWill signalled {} time(s), will QoS {}", has_will, retain, ["link failure", "client DISCONNECT", "router close after an unsolicited PUBACK", "router close after an unsolicited PUBCOMP", "router close WITH a DISCONNECT reason code (SUBSCRIBE carrying subscription identifier 0)"][ending as usize], subscribers, signals, will_qos);
                             let mut r = new_router();
                             let mut subs = vec![];
                             for i in 0..subscribers {
@@ -2117,6 +2220,9 @@ fn will_is_published_once_unless_the_client_said_disconnect() {
                                 let _ = drain(&mut r, &c);
                             } else if ending == 3 {
                                 send(&mut r, &c, vec![pubcomp(42)]);
+                                let _ = drain(&mut r, &c);
+                            } else if ending == 4 {
+                                send(&mut r, &c, vec![Packet::Subscribe(Subscribe { pkid: 9, filters: vec![filter("q/q", 0)] }, Some(crate::protocol::SubscribeProperties { id: Some(0), user_properties: vec![] }))]);
                                 let _ = drain(&mut r, &c);
                             } else {
                                 r.events(c.id, Event::Disconnect);
@@ -2159,7 +2265,7 @@ fn will_is_published_once_unless_the_client_said_disconnect() {
             }
         }
     }
-    report(name, "C16", "will registered or not x retained or not x 4 ways the connection ends (link failure, client DISCONNECT, router close after an unsolicited PUBACK / PUBCOMP) x 0..2 matching subscribers x 1..2 PublishWill signals x will QoS 0/1", cases, fail);
+    report(name, "C16", "will registered or not x retained or not x 5 ways the connection ends (link failure, client DISCONNECT, router close after an unsolicited PUBACK / PUBCOMP, router close with a reason code) x 0..2 matching subscribers x 1..2 PublishWill signals x will QoS 0/1", cases, fail);
 }
 
 /// C16: "a client without a will never causes one" — also when an EARLIER connection of the same client id had registered
